@@ -603,7 +603,8 @@ package tree
 //@   flag lightcalls
 //@   requires t != nil && tip != nil && allocated(tip) && INV() && NOINTOROOT(t)
 //@   assigns ghost(tipindex_stale)
-//@   ensures [the_name_index_is_stale_after_a_removal] result == nil ==> ghost(tipindex_stale) == 1
+//@   ghostset tipindex_stale := 1
+//@   ensures [the_name_index_is_stale_after_a_removal] ghost(tipindex_stale) == 1
 //@   return [merged_branch_carries_the_summed_length_when_either_is_present] e != nil ==> e.length == (length1 != -1.0 || length2 != -1.0 ? max(0.0, length1) + max(0.0, length2) : -1.0)
 //@   return [merged_branch_support_is_the_larger_one_only_between_two_inner_nodes] e != nil ==> e.support == ((sup1 != -1.0 || sup2 != -1.0) && deg(n1) > 1 && deg(n2) > 1 ? max(sup1, sup2) : -1.0)
 //@   return [merged_branch_joins_the_two_neighbours_and_points_away_from_the_root] e != nil ==> ((e.left == n1 && e.right == n2) || (e.left == n2 && e.right == n1)) && e.right != t.root
